@@ -206,3 +206,12 @@ Example C07_ex_analysis :
   | Panic _ => False
   end.
 Proof. vm_compute. repeat split; reflexivity. Qed.
+
+(* a remark used to classify a mutant: the guard "continue when the other value is marked" of the first loop
+   does not influence the stamped result of a line (step_noskip = the loop body without the guard) *)
+From Herc Require Import FileMerge.SkipRedundant.
+Theorem C07_skip_guard_redundant : forall day col a,
+  (let r := fold_left step col a in if mark r then day else r) =
+  (let r := fold_left (fun l ol => if mark l || (tick l >? tick ol) then ol else l) col a in if mark r then day else r).
+Proof. exact skip_is_redundant. Qed.
+Print Assumptions C07_skip_guard_redundant.
